@@ -113,6 +113,20 @@ func e2Bases() []e2Base {
 				p.tsn += 4
 				return true
 			}},
+			e2Base{"est-backlog/" + tag, false, il, func(p *scripted) bool {
+				if !est(p) {
+					return false
+				}
+				p.startReader(1)
+				p.sendMsg(1, 30, 1)
+				// the application is behind on AcceptStream: the accept backlog is full
+				// (streams the endpoint cannot register are a state of their own for every
+				// chunk that names a stream)
+				for sid := uint16(100); sid < 100+uint16(acceptChSize); sid++ {
+					p.sendMsg(sid, 20, 1)
+				}
+				return true
+			}},
 			e2Base{"est-reset/" + tag, true, il, func(p *scripted) bool {
 				if !est(p) {
 					return false
